@@ -163,10 +163,27 @@ int run_phantom(const Args& a) {
             };
             s.l = anykey();
             s.r = anykey();
+            // both endpoints inside ONE slice of some layer (common prefix of 8k bytes, different remainders): the whole
+            // interval lives in a next layer that mostly does not exist yet, so only the border that would receive the
+            // link can be reported (seeded C05-e)
+            bool same_slice = r.chance(1, 6);
+            if (same_slice) {
+                std::string pfx = anykey();
+                pfx.resize(8 * r.range(1, 3), static_cast<char>(kg.abyte()));
+                auto suffix = [&]() {
+                    std::string x;
+                    for (uint64_t i = 0, n = r.range(1, 10); i < n; ++i) { x.push_back(static_cast<char>(kg.abyte())); }
+                    return x;
+                };
+                s.l = pfx + suffix();
+                s.r = pfx + suffix();
+                if (s.l == s.r) { s.r.push_back('\x01'); }
+            }
             s.le = eps[r.below(3)];
             s.re = eps[r.below(3)];
             if (s.le != scan_endpoint::INF && s.re != scan_endpoint::INF && s.l > s.r) { std::swap(s.l, s.r); }
-            if (r.chance(1, 4)) { s.le = s.re = scan_endpoint::INF; }
+            if (same_slice && s.le != scan_endpoint::INF && s.re != scan_endpoint::INF && r.chance(1, 2)) { s.re = scan_endpoint::INCLUSIVE; }
+            if (!same_slice && r.chance(1, 4)) { s.le = s.re = scan_endpoint::INF; }
             s.max_size = r.chance(1, 2) ? 0 : r.range(1, 3);
             s.r2l = false;
             if (s.kind == 0 && r.chance(1, 6)) {
@@ -196,6 +213,7 @@ int run_phantom(const Args& a) {
             if (!r0.valid) { continue; }
             rep.eval();
             rep.count("reads_" + s.label());
+            if (same_slice && s.kind != 1) { rep.count("reads_with_both_endpoints_in_one_slice"); }
             if (r0.nv.empty()) {
                 bool must = s.kind != 2; // scan / get-miss: never empty on an existing storage
                 if (must) {
@@ -243,6 +261,12 @@ int run_phantom(const Args& a) {
                     }
                 }
                 if (r0.keys.empty()) { add(kg.fresh(), "random"); }
+                if (same_slice) {
+                    add(s.l + std::string(1, '\x01'), "between-same-slice-endpoints");
+                    add(s.r.substr(0, s.r.size() - 1), "between-same-slice-endpoints");
+                    add(s.l, "left-endpoint");
+                    add(s.r, "right-endpoint");
+                }
             }
             // ---- evaluate candidates, re-reading before each
             for (auto& [ck, cls] : cset) {
